@@ -389,7 +389,7 @@ def select(rng, genf, required, per_tag, max_programs, tries=4000):
 
 # ------------------------------------------------------------------ C08 programs (macros)
 
-C08_TAGS = ["twice", "clash-before", "clash-after", "site-or", "body-or", "nested-body", "nested-head", "head-macro", "expr-param", "ident-in", "ident-out",
+C08_TAGS = ["or-then-again", "twice", "clash-before", "clash-after", "site-or", "body-or", "nested-body", "nested-head", "head-macro", "expr-param", "ident-in", "ident-out",
             "local-pat", "local-cond", "local-neg", "twice-nested", "nested-passes-local", "expr-arg-mentions-clash", "macro-in-fact-head"]
 
 
@@ -503,7 +503,7 @@ def gen_c08_program(rng):
         walk(macros[mi]["body"])
         return out
     # rules: call patterns by quota
-    patterns = rng.shuffle(["twice", "clash", "site-or", "plain", "twice", "clash"])
+    patterns = rng.shuffle(["twice", "clash", "site-or", "plain", "twice", "clash", "site-or-again"])
     for ri, pat in enumerate(patterns[: rng.range(4, 6)]):
         g = RuleGen(rng.fork(f"rule{ri}"), p, edb, idb)
         g.neg_rels = list(edb); g.allow_or = False
@@ -532,8 +532,11 @@ def gen_c08_program(rng):
                     if gen_vars(args[-1][1]) & mac_locals(mi): tags.add("expr-arg-mentions-clash")
             return ("mac", mi, args)
         mi = g.rng.choice(bmacs)
-        if pat == "site-or":
+        if pat in ("site-or", "site-or-again"):
             cands = [i for i in bmacs if modes[i][0] == "out"]
+            # for "site-or-again" the macro invoked inside the disjunction has a macro-local variable and is invoked AGAIN after the disjunction
+            # in the same rule: the two invocations must not share the local
+            if pat == "site-or-again": cands = [i for i in cands if mac_locals(i)]
             if not cands: continue
             exp = g.fresh()
             alts, ok = [], True
@@ -550,6 +553,9 @@ def gen_c08_program(rng):
                     alts.append([cl])
             if not ok: continue
             body.append(("or", alts)); sc.bound[exp] = "int"; tags.add("site-or")
+            if pat == "site-or-again":
+                inv2 = invoke(alts[0][0][1], sc)
+                if inv2 is not None: body.append(inv2); tags.add("or-then-again")
         else:
             inv = invoke(mi, sc)
             if inv is None: continue
